@@ -90,9 +90,40 @@ var defC11F = register(&PropDef{
 		return cfg
 	},
 	Init: fInit,
-	Step: fStep(FProfile{MaxConsumers: 2, Remove: true, TwoConsumerPrelude: 60, Weights: map[string]int{"timeout": 6, "bigdt": 3, "remove": 1, "staking": 8, "relay": 8, "errack": 4, "raw": 3}}),
+	Step: withReportsAfterStop(fStep(FProfile{MaxConsumers: 2, Remove: true, TwoConsumerPrelude: 60, Weights: map[string]int{"timeout": 6, "bigdt": 3, "remove": 1, "staking": 8, "relay": 8, "errack": 4, "raw": 3}})),
 	Monitor: func(w *world.World) oracle.Monitor { return oracle.NewC11(w) },
 	Finish:  finishF,
 })
+
+// withReportsAfterStop adds downtime reports sent by a consumer that the provider has already stopped (its channel
+// stays open until the deletion when the owner stopped it): the provider declines them and records the
+// acknowledgements, which then exist when the consumer is deleted.
+func withReportsAfterStop(base func(t *rapid.T, w *world.World) world.Action) func(t *rapid.T, w *world.World) world.Action {
+	return func(t *rapid.T, w *world.World) world.Action {
+		if f := w.F(); f != nil && len(w.Agenda) == 0 && len(w.Trace) > 1 {
+			for _, id := range w.ConsumersInPhase(world.PhStopped) {
+				p := f.Paths[id]
+				if p == nil || p.C.Halted {
+					continue
+				}
+				if _, ok := p.C.CApp.ConsumerKeeper.GetProviderChannel(p.C.Ctx()); !ok {
+					continue
+				}
+				if rapid.IntRange(0, 2).Draw(t, "report-after-stop") != 0 {
+					continue
+				}
+				raw := genRawPacket(t, w, id)
+				raw.Pkt.Infraction = "downtime"
+				w.Agenda = append(w.Agenda,
+					world.Action{Kind: world.KBlock, Chain: id, Dt: 1e9},
+					world.Action{Kind: world.KBlock, Chain: id, Dt: 1e9},
+					world.Action{Kind: world.KRelay, Consumer: id, Relay: &world.RelaySpec{Op: "recv", Dir: "c2p", K: 2}},
+					world.Action{Kind: world.KBlock, Dt: 2e9})
+				return raw
+			}
+		}
+		return base(t, w)
+	}
+}
 
 func TestC11F(t *testing.T) { runProp(t, defC11F) }
